@@ -50,6 +50,29 @@ Definition form_cases (s : store) (f : sx) : list sx :=
        triple (of_bool (Nat.eqb kind 3 || sortedb (leaf_cmp s) lfs)) (A 1) 0])
     (sx_list f).
 
+(* the counting shortcuts read the length of an index entry: model = that length, spec = the
+   number of live annotations the scan finds *)
+Definition obs_counts (s : store) (model : bool) : sx :=
+  L [L (map (fun r => match get_res s r with
+                      | None => dead
+                      | Some rs => L (map (fun t => of_nat (length (if model then tget (trm s) r t else s_ts_anns s r t)))
+                                          (seq 0 (length (r_sels rs))))
+                      end) (seq 0 (length (ress s))));
+     L (map (fun d => match get_set s d with
+                      | None => dead
+                      | Some ds =>
+                          L [L (map (fun k => match slot (d_keys ds) k with
+                                              | None => dead
+                                              | Some _ => of_nat (length (if model
+                                                                          then sort_dedup (flat_map (fun x => tget (ddam s) d x) (rget (d_k2x ds) k))
+                                                                          else s_key_anns s d ds k))
+                                              end) (seq 0 (length (d_keys ds))));
+                             L (map (fun x => match slot (d_data ds) x with
+                                              | None => dead
+                                              | Some _ => of_nat (length (if model then tget (ddam s) d x else s_data_anns s d x))
+                                              end) (seq 0 (length (d_data ds))))]
+                      end) (seq 0 (length (sets s))))].
+
 (* operation 14 = AnnotationStore::shrink_to_fit: performance only, the model does nothing *)
 Fixpoint run_ops (s : store) (ops : list sx) (forms : list sx) : list sx :=
   match ops with
@@ -58,7 +81,7 @@ Fixpoint run_ops (s : store) (ops : list sx) (forms : list sx) : list sx :=
       let '(s', ro) :=
         if Z.eqb (sx_Z (sx_nth 0 x)) 14 then (s, L [A 1])
         else let o := op_of_sx x in let '(s', r) := step s o in (s', sx_of_opout o r) in
-      (triple ro ro 0 :: obs_state s') ++ form_cases s' (hd (L []) forms) ++ run_ops s' ops' (tl forms)
+      (triple ro ro 0 :: obs_state s') ++ [triple (obs_counts s' true) (obs_counts s' false) 0] ++ form_cases s' (hd (L []) forms) ++ run_ops s' ops' (tl forms)
   end.
 
 Definition run_C01 (x : sx) : sx :=
